@@ -971,6 +971,21 @@ class PureScheduler:                                    # pylint: disable=r0902
             await self.co_shutdown()
             raise
 
+    async def _abort_on_timeout(self, pending):
+        """
+        The timeout has expired: cancel whatever is still pending,
+        shut down, and record the verdict; returns False for convenience
+        """
+        await self._feedback(None,
+                             "PureScheduler.co_run: TIMEOUT occurred",
+                             force=True)
+        # clean up
+        await self._feedback(pending, "ABORTING")
+        await self._tidy_tasks(pending)
+        await self.co_shutdown()
+        self._failed_timeout = self.timeout
+        return False
+
     async def _co_run(self):                      # pylint: disable=R0912,R0915
 
         """
@@ -1054,15 +1069,7 @@ class PureScheduler:                                    # pylint: disable=r0902
             # there are also cases where done has more than one entry
             # typically when 2 jobs have very similar durations
             if not done:
-                await self._feedback(None,
-                                     "PureScheduler.co_run: TIMEOUT occurred",
-                                     force=True)
-                # clean up
-                await self._feedback(pending, "ABORTING")
-                await self._tidy_tasks(pending)
-                await self.co_shutdown()
-                self._failed_timeout = self.timeout
-                return False
+                return await self._abort_on_timeout(pending)
 
             # exceptions need to be cleaned up
             # clear the exception(s) in done
@@ -1107,6 +1114,15 @@ class PureScheduler:                                    # pylint: disable=r0902
                 await self._tidy_tasks(pending)
                 await self.co_shutdown()
                 return True
+
+            # the deadline may be behind us even though wait() has reported
+            # completions: once it has expired, wait() gets a negative timeout,
+            # returns at the next iteration of the event loop, and reports
+            # the jobs that needed no more than that to complete - a chain of
+            # short jobs would otherwise run to its end regardless of timeout
+            remaining = self._remaining_timeout()
+            if remaining is not None and remaining <= 0:
+                return await self._abort_on_timeout(pending)
 
             # go on : find out the jobs that can be added to the mix
             # only consider the ones that are right behind any of the the jobs
